@@ -123,6 +123,28 @@ func (g *Graph) cfgNodeOf(n ast.Node) (ast.Node, bool) {
 	return nil, false
 }
 
+// FirstNodeIn returns the first CFG node (in source order) inside statement n, or n itself.
+func (g *Graph) FirstNodeIn(n ast.Node) ast.Node {
+	var found ast.Node
+	ast.Inspect(n, func(x ast.Node) bool {
+		if found != nil || x == nil {
+			return false
+		}
+		if _, ok := g.nodeAt[x]; ok {
+			found = x
+			return false
+		}
+		if _, isLit := x.(*ast.FuncLit); isLit {
+			return false
+		}
+		return true
+	})
+	if found == nil {
+		return n
+	}
+	return found
+}
+
 // ExitKind distinguishes function exits.
 type ExitKind int
 
